@@ -14,9 +14,10 @@ Scaled == Kinds \ {"txt", "ans"}
 ScaleCs == {"default", "two", "zero", "negative", "half", "one_and_half"}
 BorderCs == {"default", "zero", "three", "negative", "fraction"}
 ColourCs == {"default", "name", "hex3", "hex6", "tuple", "hex2", "hex5", "hex_bad_digit", "unknown_name", "tuple2", "tuple_256", "tuple_negative",
-             "alpha_2", "empty"}
+             "alpha_2", "empty", "hex_sign", "hex_space", "hex_minus", "hex_underscore", "hex_0x"}
 KindCs == {"known", "known_upper", "unknown", "empty"}
-MalformedColour == {"hex2", "hex5", "hex_bad_digit", "unknown_name", "tuple2", "tuple_256", "tuple_negative", "alpha_2", "empty"}
+MalformedColour == {"hex2", "hex5", "hex_bad_digit", "unknown_name", "tuple2", "tuple_256", "tuple_negative", "alpha_2", "empty",
+                    "hex_sign", "hex_space", "hex_minus", "hex_underscore", "hex_0x"}
 
 VARIABLES pc, a, refusals
 vars == <<pc, a, refusals>>
